@@ -79,6 +79,14 @@ func verifDir() string {
 	return "/verif"
 }
 
+// outDir is where evidence and replay files go (VERIF_OUT redirects them for runs against scratch copies).
+func outDir() string {
+	if d := os.Getenv("VERIF_OUT"); d != "" {
+		return d
+	}
+	return verifDir()
+}
+
 // WorkerMain is the loop of a worker process: one job per input line, one result per output line.
 func WorkerMain(id, tier string) {
 	c := Lookup(id)
@@ -538,7 +546,7 @@ func DriverMain(id, tier string) int {
 	exit := 0
 	var knownSeen []string
 	nviol := 0
-	repDir := filepath.Join(verifDir(), "replays", id)
+	repDir := filepath.Join(outDir(), "replays", id)
 	os.RemoveAll(repDir)
 	for _, k := range keys {
 		v := viol[k]
@@ -622,8 +630,8 @@ func DriverMain(id, tier string) int {
 		"violations":  nviol,
 	}
 	eb, _ := json.MarshalIndent(ev, "", " ")
-	os.MkdirAll(filepath.Join(verifDir(), "evidence"), 0o755)
-	if err := os.WriteFile(filepath.Join(verifDir(), "evidence", id+".json"), append(eb, '\n'), 0o644); err != nil {
+	os.MkdirAll(filepath.Join(outDir(), "evidence"), 0o755)
+	if err := os.WriteFile(filepath.Join(outDir(), "evidence", id+".json"), append(eb, '\n'), 0o644); err != nil {
 		fmt.Println("INFRA-ERROR: cannot write evidence:", err)
 		if exit == 0 {
 			exit = 2
